@@ -283,9 +283,33 @@ def r09_8(prog: Program, rep: Report):
     for p in ps:
         child = child_of(p)
         for e in p.events:
-            if e[0] == "assign" and T.is_call_to(e[2], "typelib.py.refs.evaluate") and e[2][2] and (child is None or e[2][2][0] == child or e[2][2][0][0] == "unpack"):
-                if any(pol and (T.is_call_to(g, "builtins.isinstance") and T.refname(g[2][1]) == "typing.ForwardRef" or T.is_call_to(g, f"{C.INSP}.isforwardref")) for g, pol in p.guards()):
+            if e[0] == "assign" and T.is_call_to(e[2], "typelib.py.refs.evaluate") and e[2][2] and (child is None or e[2][2][0] == child or e[2][2][0][0] == "unpack" or T.contains(e[2][2][0], lambda x: x == child) or e[2] == child):
+                if any(pol and (T.is_call_to(g, "builtins.isinstance") and "typing.ForwardRef" in {T.refname(x) for x in (P.flatten_display(prog, g[2][1]) or [g[2][1]])} or T.is_call_to(g, f"{C.INSP}.isforwardref")) for g, pol in p.guards()):
                     evaluates = True
+    # sibling agreement: whatever static_order() accepts as a reference at the root, the walk accepts for a member
+    def ref_classes(guards, subject_ok):
+        out = set()
+        for g, pol in guards:
+            if pol and T.is_call_to(g, "builtins.isinstance") and len(g[2]) == 2 and subject_ok(g[2][0]):
+                for x in P.flatten_display(prog, g[2][1]) or [g[2][1]]:
+                    if T.refname(x):
+                        out.add(T.refname(x))
+        return out
+
+    so = prog.function(f"{MOD}.static_order")
+    st = ("param", so.params[0])
+    root_cls = set()
+    for p in P.paths_of(prog, so):
+        if p.exit[0] == "return" and T.contains(p.exit[1], lambda x: T.is_call_to(x, "typelib.py.refs.evaluate")):
+            root_cls |= ref_classes(p.guards(), lambda x: x == st)
+    member_cls = set()
+    for p in ps:
+        child = child_of(p)
+        if any(e[0] == "assign" and T.contains(e[2], lambda x: T.is_call_to(x, "typelib.py.refs.evaluate")) for e in p.events):
+            member_cls |= ref_classes(p.guards(), lambda x: child is None or x == child or x[0] in ("unpack", "elem"))
+    if root_cls:
+        missing = sorted(root_cls - member_cls)
+        rep.check(not missing, "R09.8", f.qualname, f.loc, f"every reference class accepted at the root ({sorted(root_cls)}) is evaluated when it arrives as a member", f"static_order() evaluates a root given as {sorted(root_cls)}, but the walk evaluates members of class {sorted(member_cls)} only: {missing} members -- the raw string arguments a builtin generic keeps, list['Node'], dict[str, 'Item'] -- become nodes whose type is a str object and the dispatch raises TypeError (issubclass() arg 1 must be a class)", detail="reference-members-classes")
     if not makes_refs:
         rep.held("R09.8", f.qualname, f.loc, "signature hints are never handed over as references", nontrivial=False)
     else:
